@@ -202,7 +202,11 @@ func (s *Solver) CheckA(asserts []*Term, want []*Term, ascii bool) (Result, []st
 						continue // content is never read from the model (vfBlob); a regex over 64 KiB stalls the solvers
 					}
 					if d, ok := lookupDecl(v); ok && d.Kind == SString {
-						fmt.Fprintf(&b, "(assert (str.in_re %s (re.* (re.range \"\\u{0}\" \"\\u{7f}\"))))\n", quoteSym(d.Name))
+						top := "7f"
+						if ByteMode {
+							top = "ff"
+						}
+						fmt.Fprintf(&b, "(assert (str.in_re %s (re.* (re.range \"\\u{0}\" \"\\u{%s}\"))))\n", quoteSym(d.Name), top)
 					}
 				}
 			}
